@@ -18,6 +18,8 @@ pub fn fillers() -> Vec<T> {
         T::BufferData(vec![1, 2, 3, 4, 5]),
         T::Package(vec![T::One]),
         T::If(Box::new(T::Arg(0)), vec![T::Int(0x89ab_cdef, Carrier::U32)]),
+        // a 64-bit constant: its encoder hands the value to the sink in one qword() call
+        T::Int(0x0001_2345_6789_abcd, Carrier::U64),
     ]
 }
 
